@@ -49,6 +49,13 @@ def enc(it, vspec, v):
         if isinstance(v, VMap):
             return v.id
         raise Unsupported(f"map value {v!r} is not a dict")
+    if vspec == "dyn":
+        # any value, boxed: an injection of dynamic values into the integers (its inverse is
+        # stated for the value stored)
+        d = it.world.to_dyn(it, v)
+        i = DYN2INT(d.t)
+        it.sadd(INT2DYN(i) == d.t)
+        return i
     raise Unsupported(f"map value spec {vspec}")
 
 
@@ -59,10 +66,18 @@ def dec(it, vspec, t):
         return VInt(t)
     if isinstance(vspec, tuple) and vspec[0] == "map":
         return VMap(t, vspec)
+    if vspec == "dyn":
+        from .sym import VDyn
+        d = VDyn(INT2DYN(t))
+        if hasattr(it.world, "dyn_wf"):
+            it.world.dyn_wf(it, d)
+        return d
     raise Unsupported(f"map value spec {vspec}")
 
 
 STRKEY = z3.Function("str_key", sym.ArrS, sym.I, sym.I)
+DYN2INT = z3.Function("dyn2int", sym.ValS, sym.I)
+INT2DYN = z3.Function("int2dyn", sym.I, sym.ValS)
 
 
 def key_of(it, k):
@@ -87,8 +102,38 @@ def get(it, m, k):
     return z3.Select(z3.Select(st.mval, m.id), k)
 
 
+def rank_ghost(m):
+    """("map", "bool", "rank:G"): a visited table name -> deferred? whose entries only move
+    absent -> True -> False; the ghost G is defined as the sum over the names n of the finite
+    universe U (pyvc/namesets.py) of rank(n) = 2 if absent, 1 if True, 0 if False."""
+    if len(m.spec) > 2 and isinstance(m.spec[2], str) and m.spec[2].startswith("rank:"):
+        return m.spec[2][5:]
+    return None
+
+
+def havoc_heap(it):
+    """all dict contents unknown (a loop body or a callee may have stored into any of them)."""
+    st = state(it)
+    st.mdom = z3.Array(it.namer.fresh("mdom"), sym.I, MDS)
+    st.mval = z3.Array(it.namer.fresh("mval"), sym.I, MS)
+    nxt = z3.Int(it.namer.fresh("mnext"))
+    it.assume(nxt >= st.mnext)
+    st.mnext = nxt
+
+
 def put(it, m, k, v):
     st = state(it)
+    g = rank_ghost(m)
+    if g is not None and not it.st.spec:
+        from . import namesets
+        from .sym import VInt
+        it.world.trusted_used.add(namesets.A_NS_RANK)
+        cur = it.ghost_get(g).t
+        r0 = z3.If(z3.Not(has(it, m, k)), 2, z3.If(get(it, m, k) != 0, 1, 0))
+        r1 = z3.If(enc(it, m.spec[1], v) != 0, 1, 0)
+        in_u = namesets.IN_U(k)
+        it.assume(z3.Implies(in_u, cur >= r0))
+        it.st.ghost[g] = VInt(cur - z3.If(in_u, r0 - r1, 0))
     st.mval = z3.Store(st.mval, m.id, z3.Store(z3.Select(st.mval, m.id), k, enc(it, m.spec[1], v)))
     st.mdom = z3.Store(st.mdom, m.id, z3.Store(z3.Select(st.mdom, m.id), k, z3.BoolVal(True)))
 
@@ -112,7 +157,11 @@ def install(w):
             st = state(it)
             ident = z3.Int(it.namer.fresh(label))
             it.assume(z3.And(0 <= ident, ident < st.mnext))
-            return VMap(ident, spec)
+            m = VMap(ident, spec)
+            if rank_ghost(m) is not None:
+                it.assume(it.ghost_get(rank_ghost(m)).t >= 0)
+                it.st.ghost.setdefault(("rankmaps",), set()).add(rank_ghost(m))
+            return m
         return prev_fresh(it, spec, label) if prev_fresh else None
     w.fresh_ext = fresh_ext
 
@@ -148,6 +197,15 @@ def install(w):
         put(it, m, k, dv)
         return dv
     w.builtins["map.setdefault"] = m_setdefault
+
+    def m_clear(it, f, args, kw, node):
+        m = f.recv
+        if rank_ghost(m) is not None:
+            raise Unsupported("clear() of a measured visited table")
+        st = state(it)
+        st.mdom = z3.Store(st.mdom, m.id, z3.K(sym.I, z3.BoolVal(False)))
+        return atom(None)
+    w.builtins["map.clear"] = m_clear
 
     prev_index = w.index_ext
 
